@@ -78,7 +78,7 @@ pub trait Engine: Sync {
     /// wall-clock watchdog: a worker that reports no progress for this long is killed and the
     /// run it was executing is recorded as hung (confirmed by replay in a fresh process)
     fn run_timeout(&self) -> Duration {
-        Duration::from_secs(20)
+        Duration::from_secs(45)
     }
     fn plan(&self, seed: u64, run: u64, tier: Tier) -> Value;
     fn execute(&self, plan: &Value) -> RunReport;
@@ -492,10 +492,10 @@ pub fn check_main(e: &dyn Engine, tier: Tier, seed: u64, workers: usize, runs_ov
     let mut notes: BTreeMap<String, u64> = BTreeMap::new();
     let mut per_run_digests: Vec<(u64, u64)> = Vec::new();
     let mut hangs_seen = 0usize;
+    let mut late_lines: Vec<(u64, RunReport, Value)> = Vec::new();
     for (_i, cr) in results {
         for run in cr.hung_runs.iter().copied() {
-            hangs_seen += 1;
-            if hangs_seen > 2 {
+            if hangs_seen >= 2 {
                 // two confirmed hangs are enough; do not spend the watchdog again on each
                 *notes.entry("further watchdog hits not individually confirmed".to_string()).or_insert(0) += 1;
                 continue;
@@ -516,6 +516,7 @@ pub fn check_main(e: &dyn Engine, tier: Tier, seed: u64, workers: usize, runs_ov
                         }
                     }
                     let _ = std::fs::remove_file(&prog);
+                    hangs_seen += 1;
                     found.push((
                         run,
                         Violation {
@@ -527,7 +528,13 @@ pub fn check_main(e: &dyn Engine, tier: Tier, seed: u64, workers: usize, runs_ov
                         plan,
                     ));
                 }
-                _ => harness_errors.push(format!("watchdog fired for run {run} but replay returned in time")),
+                Ok(rep) => {
+                    // the watchdog is wall-clock and the machine may simply have been busy: the run
+                    // returns in a fresh process, so take that execution as the run's result
+                    *notes.entry("watchdog fired under load; run re-executed in a fresh process".to_string()).or_insert(0) += 1;
+                    late_lines.push((run, rep, plan));
+                }
+                Err(m) => harness_errors.push(format!("watchdog fired for run {run} and its replay failed: {m}")),
             }
         }
         for h in &cr.harness_panics {
@@ -592,6 +599,25 @@ pub fn check_main(e: &dyn Engine, tier: Tier, seed: u64, workers: usize, runs_ov
                 let plan = v.plan_override.clone().or_else(|| l.plan.clone()).unwrap_or(Value::Null);
                 found.push((l.run, v, plan));
             }
+        }
+    }
+    for (run, rep, plan) in late_lines {
+        evaluations += 1;
+        events += rep.events;
+        all_digest = mix(all_digest, mix(run, rep.log_digest));
+        per_run_digests.push((run, rep.log_digest));
+        for (k, v) in rep.stats {
+            *stats.entry(k).or_insert(0) += v;
+        }
+        for s in rep.shapes {
+            shapes.insert(s);
+        }
+        for c in rep.cells {
+            cells.insert(c);
+        }
+        for v in rep.violations {
+            let p2 = v.plan_override.clone().unwrap_or_else(|| plan.clone());
+            found.push((run, v, p2));
         }
     }
     if std::env::var("VERIF_DIGESTS").is_ok() {
@@ -806,6 +832,10 @@ pub fn check_main(e: &dyn Engine, tier: Tier, seed: u64, workers: usize, runs_ov
         for h in &harness_errors {
             eprintln!("HARNESS-ERROR: {}", h);
         }
+        return 2;
+    }
+    if ABORT.load(std::sync::atomic::Ordering::Relaxed) && hangs_seen == 0 {
+        eprintln!("HARNESS-ERROR: the batch was cut short by watchdog hits that did not confirm as hangs (machine overloaded?)");
         return 2;
     }
     if evaluations < total && !ABORT.load(std::sync::atomic::Ordering::Relaxed) {
